@@ -2,6 +2,7 @@
 //! on the same case files the extracted Coq model is run on, printing canonical result lines.
 
 mod m_cchan;
+mod m_cexec;
 mod m_cping;
 mod m_crun;
 mod m_seq;
@@ -21,6 +22,8 @@ fn main() {
     match args.get(1).map(|s| s.as_str()) {
         Some("token") => m_token::run(),
         Some("cping") => m_cping::run(),
+        Some("cexec") => m_cexec::run(),
+        Some("streams") => m_cexec::run_streams(),
         Some("crun") => m_crun::run(),
         Some("cchan") => m_cchan::run(),
         Some("cchan0") => m_cchan::run0(),
